@@ -35,6 +35,7 @@ impl Family for C05Family {
             real: &["Authenticator::{make_credential,get_assertion}", "Client::{register,authenticate}", "MemoryStore", "Option<Passkey>", "lock wrappers over tokio::sync"],
             stubs: &["executor", "SimStore seam + reference store", "SimUser", "seeded RNG behind the hook"],
             crash_isolated: false,
+            fresh_thread: true,
         }
     }
 
